@@ -530,7 +530,7 @@ def rule_read(ctx):
 
 # 'the same attributes': a constructor that drops an argument under some condition breaks the round trip
 # the receive path is how a serialised message is parsed in practice: the scan must find it whatever text it carries
-IMPORTS = [('C20', 'C20.CTOR'), ('C02', 'C02.FIND')]
+IMPORTS = [('C20', 'C20.CTOR'), ('C02', 'C02.FIND'), ('C02', 'C02.DISCARD')]
 
 RULES = [
     ("C03.REG", rule_reg, "every emit-able message class is registered with the parser; tags unique; same tag function on both sides"),
